@@ -14,15 +14,6 @@ import (
 //zzv:outside the PID algorithm's settling value and settling time (products of symbolic floating-point state over an unbounded horizon): not decided by this technique; stalled never-stop fans (C02/C10) are excluded by assuming a positive RPM average
 //zzv:inductive ZZ_C04_Direct ZZ_C04_Limited_FullRange ZZ_C04_Limited_Scaled
 
-func zzC04Env(loop control_loop.ControlLoop) *zzEnv {
-	e := zzNewFan(zzKindHwmon, zzv.Bool("neverStop"), true, true, true, zzv.Int("devPwm"), 1, zzv.Int("devRpm"))
-	zzHwmonLimits(e)
-	zzv.Assume(e.hw.RpmMovingAvg > 0) // the fan is spinning: no stall handling in this property
-	e.zzController(loop, zzRange("curveValue", 0, 255), 2)
-	zzv.Assume(e.fan.GetMinPwm() <= e.fan.GetMaxPwm())
-	return e
-}
-
 func ZZ_C04_Direct() {
 	e := zzC04Env(zzLoop(0))
 	c := e.c
